@@ -21,13 +21,13 @@ func checkC11(c *Ctx) {
 	c.ruleShortWrite("F5.shortwrite")
 	c.ruleReadShape()
 	c.ruleGUIDFormat("H1.guidtext")
-	c.R.Floor("F1.onewrite", 4)
-	c.R.Floor("F2.flags", 2)
-	c.R.Floor("F3.buffer", 2)
-	c.R.Floor("F4.path", 2)
-	c.R.Floor("F5.shortwrite", 2)
+	c.R.Floor("F1.onewrite", 2)
+	c.R.Floor("F2.flags", 1)
+	c.R.Floor("F3.buffer", 1)
+	c.R.Floor("F4.path", 1)
+	c.R.Floor("F5.shortwrite", 1)
 	c.R.Floor("F6.gate", 3)
-	c.R.Floor("F7.read", 2)
+	c.R.Floor("F7.read", 1)
 	c.R.Floor("F8.args", 1)
 }
 
@@ -161,7 +161,7 @@ func checkC12(c *Ctx) {
 	c.ruleFreshRead()
 	c.R.Floor("F9.truncate", 1)
 	c.R.Floor("F10.strip", 3)
-	c.R.Floor("F11.fresh", 3)
+	c.R.Floor("F11.fresh", 1)
 }
 
 func (c *Ctx) ruleFreshRead() {
